@@ -1,42 +1,12 @@
-//! Streams `exec:<focus>` — parse -> compile -> execute of generated filters on generated
-//! contexts, and `value` — value expressions.  C01 (scalar), C02 (containers), C03 (calls),
-//! C17 (lists) use the same machinery with different generator focus.
+//! Streams `exec-<focus>` — parse -> compile -> execute of generated filters on generated
+//! contexts, and value expressions.  C01 (scalar), C02 (containers), C03 (calls), C17 (lists)
+//! use the same machinery with a different generator focus.  Lines are generated here and
+//! executed on the real engine by `coreops::Core`.
 use crate::Cfg;
-use crate::codec::{ty_str, val_str};
-use crate::core::{self, CtxSpec, SchemeSpec};
+use crate::core;
+use crate::coreops::Core;
 use crate::fgen::{self, Focus, G};
 use crate::out::{Out, hex};
-
-pub fn exec_text(spec: &SchemeSpec, scheme: &wirefilter::Scheme, ctx: &wirefilter::ExecutionContext<'_>, text: &str) -> String {
-    let r = core::no_panic(|| {
-        let ast = match spec.parser(scheme).parse(text) {
-            Ok(a) => a,
-            Err(_) => return "err".to_string(),
-        };
-        let f = ast.compile();
-        match f.execute(ctx) {
-            Ok(b) => b.to_string(),
-            Err(_) => "exec-err".to_string(),
-        }
-    });
-    r.unwrap_or_else(|| "panic".to_string())
-}
-
-pub fn value_text(spec: &SchemeSpec, scheme: &wirefilter::Scheme, ctx: &wirefilter::ExecutionContext<'_>, text: &str) -> String {
-    let r = core::no_panic(|| {
-        let ast = match spec.parser(scheme).parse_value(text) {
-            Ok(a) => a,
-            Err(_) => return "err".to_string(),
-        };
-        let f = ast.compile();
-        match f.execute(ctx) {
-            Ok(Ok(v)) => format!("ok {}", val_str(&v)),
-            Ok(Err(t)) => format!("absent {}", ty_str(&t)),
-            Err(_) => "exec-err".to_string(),
-        }
-    });
-    r.unwrap_or_else(|| "panic".to_string())
-}
 
 fn focus_of(name: &str) -> Focus {
     match name {
@@ -48,93 +18,89 @@ fn focus_of(name: &str) -> Focus {
     }
 }
 
+pub fn tags_for(text: &str, ans: &str, is_value: bool) -> Vec<&'static str> {
+    let mut tags: Vec<&'static str> = vec![if is_value { "value" } else { "exec" }];
+    match ans {
+        "err" => tags.push("ans.err"),
+        "true" => tags.push("ans.true"),
+        "false" => tags.push("ans.false"),
+        "panic" => tags.push("ans.panic"),
+        a if a.starts_with("absent") => tags.push("ans.absent"),
+        _ => tags.push("ans.value"),
+    }
+    if text.contains("[*]") || text.contains("*]") {
+        tags.push("has.mapeach");
+    }
+    if text.contains("any") || text.contains("all") {
+        tags.push("has.quantifier");
+    }
+    if text.contains('$') {
+        tags.push("has.inlist");
+    }
+    if text.contains('(') {
+        tags.push("has.paren_or_call");
+    }
+    if text.contains("not") || text.contains('!') {
+        tags.push("has.not");
+    }
+    tags
+}
+
 pub fn run(focus_name: &str, cfg: Cfg, out: &mut Out) {
     core::silence_panics();
     let focus = focus_of(focus_name);
     let mut rng = cfg.rng();
     let n_schemes = if cfg.quick() { 3 } else { 12 };
-    let n_filters = cfg.share(if cfg.quick() { 2400 } else { 160_000 }) / n_schemes;
+    let n_filters = (cfg.share(if cfg.quick() { 2400 } else { 160_000 }) / n_schemes).max(1) as usize;
     let n_ctx = if cfg.quick() { 6 } else { 10 };
+    let mut core = Core::new();
     for _ in 0..n_schemes {
         let spec = fgen::rich_scheme(&mut rng, 128);
-        let scheme = spec.build();
-        out.case(&spec.op_line(), "ok", None, &["scheme"]);
-        // a pool of contexts reused across filters (keeps op volume down)
-        let ctxs: Vec<CtxSpec> = (0..24).map(|_| fgen::gen_ctx(&mut rng, &spec)).collect();
-        let built: Vec<_> = ctxs.iter().map(|c| c.build(&spec, &scheme)).collect();
+        let line = spec.op_line();
+        let a = core.apply(&line).expect("scheme line");
+        out.case(&line, &a, None, &["scheme"]);
+        let ctxs: Vec<_> = (0..24).map(|_| fgen::gen_ctx(&mut rng, &spec)).collect();
         let mut batch: Vec<(String, bool, Vec<&'static str>)> = Vec::new();
         for _ in 0..n_filters {
             let depth = *rng.pick(&[1u32, 2, 2, 3, 3, 4]);
             let mut g = G::new(&mut rng, &spec);
             g.focus = focus;
             g.allow_regex = false;
-            if focus == Focus::Calls && g.rng.chance(1, 4) {
-                let t = g.value_expr(depth);
-                let st = g.stats.clone();
-                batch.push((t, true, st));
-            } else if focus == Focus::Containers && g.rng.chance(1, 5) {
-                let t = g.value_expr(1);
-                let st = g.stats.clone();
-                batch.push((t, true, st));
-            } else {
-                let t = g.expr(false, depth);
-                let st = g.stats.clone();
-                batch.push((t, false, st));
-            }
+            let value = (focus == Focus::Calls && g.rng.chance(1, 4))
+                || (focus == Focus::Containers && g.rng.chance(1, 5));
+            let t = if value { g.value_expr(depth.min(2)) } else { g.expr(false, depth) };
+            let st = g.stats.clone();
+            batch.push((t, value, st));
         }
-        // iterate context-major so that `ctx` lines are emitted once per context
+        // context-major order so that each `ctx` line is emitted once
         let per_ctx = (batch.len() * n_ctx).div_ceil(ctxs.len());
-        let mut results: Vec<Vec<(usize, String)>> = vec![Vec::new(); batch.len()];
-        for (ci, c) in built.iter().enumerate() {
+        let mut answers: Vec<Vec<(usize, String)>> = vec![Vec::new(); batch.len()];
+        let mut emitted: Vec<(usize, usize, String, String)> = Vec::new(); // (ci, fi, op, ans)
+        for (ci, c) in ctxs.iter().enumerate() {
+            let cl = c.op_line();
+            let a = core.apply(&cl).expect("ctx line");
+            emitted.push((ci, usize::MAX, cl, a));
             for k in 0..per_ctx {
                 let fi = (ci * per_ctx + k * 7 + ci) % batch.len();
                 let (text, is_value, _) = &batch[fi];
-                let ans = if *is_value {
-                    value_text(&spec, &scheme, c, text)
-                } else {
-                    exec_text(&spec, &scheme, c, text)
-                };
-                results[fi].push((ci, ans));
+                let op = format!("{} {}", if *is_value { "value" } else { "exec" }, hex(text.as_bytes()));
+                let ans = core.apply(&op).expect("core op");
+                answers[fi].push((ci, ans.clone()));
+                emitted.push((ci, fi, op, ans));
             }
         }
-        for (ci, c) in ctxs.iter().enumerate() {
-            out.case(&c.op_line(), "ok", None, &["ctx"]);
-            for (fi, (text, is_value, stats)) in batch.iter().enumerate() {
-                for (rci, ans) in results[fi].iter() {
-                    if *rci != ci {
-                        continue;
-                    }
-                    let distinct_answers = results[fi].iter().map(|x| &x.1).collect::<std::collections::BTreeSet<_>>().len();
-                    let nontrivial = distinct_answers >= 2 && ans != "err";
-                    let op = format!("{} {}", if *is_value { "value" } else { "exec" }, hex(text.as_bytes()));
-                    let key = format!("{text}#{ci}");
-                    let mut tags: Vec<&str> = vec![if *is_value { "value" } else { "exec" }];
-                    match ans.as_str() {
-                        "err" => tags.push("ans.err"),
-                        "true" => tags.push("ans.true"),
-                        "false" => tags.push("ans.false"),
-                        "panic" => tags.push("ans.panic"),
-                        a if a.starts_with("absent") => tags.push("ans.absent"),
-                        _ => tags.push("ans.value"),
-                    }
-                    for s in stats {
-                        tags.push(s);
-                    }
-                    if text.contains("[*]") {
-                        tags.push("has.mapeach");
-                    }
-                    if text.contains("any") || text.contains("all") {
-                        tags.push("has.quantifier");
-                    }
-                    if text.contains('$') {
-                        tags.push("has.inlist");
-                    }
-                    if text.contains(" in") || text.contains("\nin") {
-                        tags.push("has.in");
-                    }
-                    out.case(&op, ans, if nontrivial { Some(&key) } else { None }, &tags);
-                }
+        for (ci, fi, op, ans) in emitted {
+            if fi == usize::MAX {
+                out.case(&op, &ans, None, &["ctx"]);
+                continue;
             }
+            let (text, is_value, stats) = &batch[fi];
+            let distinct = answers[fi].iter().map(|x| &x.1).collect::<std::collections::BTreeSet<_>>().len();
+            let nontrivial = distinct >= 2 && ans != "err";
+            let mut tags = tags_for(text, &ans, *is_value);
+            tags.extend(stats.iter());
+            let key = format!("{text}#{ci}");
+            out.case(&op, &ans, if nontrivial { Some(&key) } else { None }, &tags);
         }
     }
 }
